@@ -218,6 +218,15 @@ class _:
         ST2 = ttb.sumtensor([K, ttb.tensor(D.copy())])
         if not same(ST2.full().data, D + exp, 1e-12):
             raise Fail("sumtensor.full(kruskal-first)", f"{case}")
+        # element types must not matter: an integer-valued dense part followed by parts with fractional values
+        Di = rs.randint(-2, 3, size=shp)
+        Spf = ttb.tensor(np.where(rs.rand(*shp) < 0.6, rs.randint(-7, 8, size=shp) / 4.0, 0.0)).to_sptensor()
+        for parts, want, nm in (([ttb.tensor(Di.copy()), Spf], Di + den_sp(Spf), "int-dense+sparse"),
+                                ([ttb.tensor(Di.copy()), Spf, K], Di + den_sp(Spf) + exp, "int-dense+sparse+kruskal"),
+                                ([Spf, ttb.tensor(Di.copy())], Di + den_sp(Spf), "sparse+int-dense")):
+            got = ttb.sumtensor(parts).full().data
+            if not same(np.asarray(got, dtype=float), np.asarray(want, dtype=float), 1e-12):
+                raise Fail(f"sumtensor.full:{nm}", f"{case}")
 
 
 def _perm_spec(X, order):
